@@ -37,8 +37,8 @@ PROPS["C01"] = {
     "assumptions": SCHED_ASSUME + [PROC_ASSUME, TASK_ASSUME, "'unless the manifest was regenerated and reloaded': the started set belongs to one Runner/Work; a new Work is only built after load::read (unit run, C17)"],
 }
 PROPS["C04"] = {
-    "units": ["sched", "task"],
-    "probes": {"sched": ["work::Work::run", "work::BuildStates::pop_queued", "work::BuildStates::enqueue"], "task": ["task::Runner::can_start_more", "task::Runner::start", "task::Runner::wait"]},
+    "units": ["sched", "task", "load"],
+    "probes": {"sched": ["work::Work::run", "work::BuildStates::pop_queued", "work::BuildStates::enqueue"], "task": ["task::Runner::can_start_more", "task::Runner::start", "task::Runner::wait"], "load": ["load::Loader::parse_with_parser"]},
     "level": "proof",
     "assumptions": SCHED_ASSUME + [TASK_ASSUME, "|live| of the abstract Runner equals the real `running` counter (both change by one in start/wait); BuildStates::new (built-in unlimited \"\" pool and `console`, declared pools present, everything fresh) and Work::new (establishes Work::run's preconditions) are under contract; that the depth value parsed by parse::read_pool is the number written in the manifest is not (str::parse is trusted)"],
 }
@@ -180,10 +180,10 @@ RUN_ASSUME = [
     "main.rs is under contract through the protocol vxm (run() and process::exit are stubs); run::run itself (3 lines) is not extracted",
 ]
 PROPS["C17"] = {
-    "units": ["run", "load"],
-    "probes": {"run": ["run::build"], "load": ["load::read", "load::Loader::parse_with_parser"]},
+    "units": ["run", "load", "sched"],
+    "probes": {"run": ["run::build"], "load": ["load::read", "load::Loader::parse_with_parser"], "sched": ["work::Work::want_every_file"]},
     "level": "proof",
-    "assumptions": RUN_ASSUME + ["'its generator does not run when the manifest is up to date' and 'results settled during that check are reused consistently' are decided by the dirty check (C03) and by want_file tolerating Done steps (unit sched: mono) -- here only: no reload and no second Work when phase 1 ran nothing"],
+    "assumptions": RUN_ASSUME + ["unit sched: Work::want_every_file never requests the file it is told to leave out (the manifest's own target in the 'every output' case; assertion before its want_file call)", "'its generator does not run when the manifest is up to date' and 'results settled during that check are reused consistently' are decided by the dirty check (C03) and by want_file tolerating Done steps (unit sched: mono) -- here only: no reload and no second Work when phase 1 ran nothing"],
 }
 
 PROPS["C11"] = {
@@ -298,7 +298,7 @@ LEVEL_TEXT = {
     },
     "C04": {
         "text": "Unbounded proof (Verus): Runner::start requires |live| < parallelism at its only call site; BuildStates::set(.., Running) is reachable only through pop_queued, whose verified contract returns the head of the first pool with depth == 0 or running < depth; per-pool running counters are proved exact (pool_inv: running == number of Running builds resolved to that pool, <= depth when depth > 0) across every transition incl. failures; enqueue returns Err iff the build's pool name matches no declared pool.",
-        "note": "Trusted: as C01; plus the representation axiom |live| == Runner.running, par == parallelism (unit task proves the real counter arithmetic against the same clauses the scheduler assumes). The parser's depth value (str::parse) is trusted.",
+        "note": "Trusted: as C01; plus the representation axiom |live| == Runner.running, par == parallelism (unit task proves the real counter arithmetic against the same clauses the scheduler assumes). The parser's depth value (str::parse) is trusted; unit load: a `pool` statement registers the pool under its own name with the depth it declares (assertion after `self.pools.insert(..)` in parse_with_parser); that Loader.pools reaches Work::new unchanged is unit run's protocol.",
         "design_ref": "DESIGN.md §6 C04",
     },
     "C05": {
